@@ -392,6 +392,51 @@ def check_inheriting_defs(ev, fails, d):
             ev.case(key=[name, dn, k], nontrivial=True, labels=("inheriting-def",))
 
 
+# ---- keyword arguments of render reach a declared ** catch-all on every path ---------------------------------
+def check_catchall(ev, fails, d):
+    """<%page args="x, **NAME"/> and <%def name="f(a, **NAME)">: the extra keywords given to render / render_unicode /
+    render_context / get_def().render arrive in NAME whatever it is called, on every construction path; expectation by
+    construction"""
+    from mako.runtime import Context
+    from mako.template import Template
+    from mako.util import FastEncodingBuffer
+
+    for name, nextra in itertools.product(["extra", "kw", "pageargs", "rest_"], range(0, 4)):
+        k = next(_k)
+        extras = dict([("y", 2), ("z", "3"), ("w", None)][:nextra])
+        src = ('<%%page args="x, **%s"/><%%def name="f(a, **%s)">a=${a} got=${sorted(%s.items(), key=str)}</%%def>'
+               "x=${x} got=${sorted((k_, v_) for k_, v_ in %s.items() if k_ in ('y', 'z', 'w'))}" % (name, name, name, name))
+        exp_page = "x=1 got=%r" % (sorted(extras.items()),)
+        exp_def = "a=1 got=%r" % (sorted(extras.items(), key=str),)
+        fn = os.path.join(d, "catch%d.html" % k)
+        with open(fn, "wb") as fh:
+            fh.write(src.encode("utf-8"))
+        md = os.path.join(d, "catchmod%d" % k)
+        builders = [("text", lambda: Template(src, uri="/c08c_%d.html" % k)), ("file", lambda: Template(filename=fn)),
+                    ("module_directory", lambda: Template(filename=fn, module_directory=md)),
+                    ("module_directory-reload", lambda: Template(filename=fn, module_directory=md))]
+        for pname, build in builders:
+            t = build()
+            case = {"part": "catchall", "name": name, "extras": nextra, "path": pname}
+
+            def ctx_render():
+                buf = FastEncodingBuffer()
+                t.render_context(Context(buf), x=1, **extras)  # (render_context hands its keywords to the body as they are)
+                return buf.getvalue()
+
+            got = {"render": _run(lambda: t.render(x=1, **extras)), "render_unicode": _run(lambda: t.render_unicode(x=1, **extras)),
+                   "render_context": _run(ctx_render)}
+            for how, g in got.items():
+                if g != ("ok", exp_page):
+                    f = Failure(case, "%s/%s with extra keywords %r: expected %r, got %r\n%s" % (pname, how, extras, exp_page, g, src), "catchall:page:" + how)
+                    fails.setdefault(f.key, f)
+            gd = _run(lambda: t.get_def("f").render_unicode(a=1, **extras))
+            if gd != ("ok", exp_def):
+                f = Failure(case, "%s/get_def('f').render_unicode(a=1, **%r): expected %r, got %r\n%s" % (pname, extras, exp_def, gd, src), "catchall:get_def")
+                fails.setdefault(f.key, f)
+            ev.case(key=[name, nextra, pname], nontrivial=nextra >= 1, labels=("catchall",))
+
+
 # ---- colliding URIs ---------------------------------------------------------
 def check_collision(ev, fails):
     from mako.template import Template
@@ -456,6 +501,7 @@ def run(ctx):
     check_collision(ctx.ev, fails)
     with core.TempDir() as d:
         check_inheriting_defs(ctx.ev, fails, d)
+        check_catchall(ctx.ev, fails, d)
     for f in fails.values():
         ctx.fail(f)
     n = ctx.pick(10, 1500)
@@ -483,6 +529,8 @@ def replay(case):
                 check_collision(ev, fails)
             elif part == "inheriting-def":
                 check_inheriting_defs(ev, fails, d)
+            elif part == "catchall":
+                check_catchall(ev, fails, d)
             elif part == "nsset":
                 from mako.lookup import TemplateLookup
 
